@@ -255,8 +255,7 @@ for (key, value) in it: other_map.values.into_entries()
                         forall|i: int| 0 <= i < it.index@ ==>
                             ((#[trigger] map.keys@[k0.len() + i]) is String && str_of(map.keys@[k0.len() + i])@ == b0[i].0),
 {
-                    
-                    if map.values.get(&key).map_or(false, |v| !v.is_null()) {
+                    if map.values.contains_key(&key) {
                                                 proof {
                             let i = it.index@ as int;
                             assert(b0[i] == (it.seq()[i].0@, it.seq()[i].1));
